@@ -178,6 +178,12 @@ PROGRAMS += [
     "import sys\nif sys:\n    __all__ = ['public_api']\ndef public_api():\n    return 1\nprint(public_api(), __all__)",
     "def make_base():\n    class Base:\n        def __init__(self): self.__token = 'base'\n        def base_token(self): return self.__token\n    return Base\ndef make_derived(base):\n    class Derived(base):\n        def __init__(self): super().__init__(); self.__token = 'derived'\n        def derived_token(self): return self.__token\n    return Derived\nd = make_derived(make_base())()\nprint(d.base_token(), d.derived_token())",
 ]
+# a class body inside a function that declares a name global / nonlocal (or not) and reads / binds it, with a same-named function local and module global
+for _decl in ('global registry', 'nonlocal registry', 'pass'):
+    for _use in ('seen = registry[0]', 'registry = [name]', 'registry.append(name)', 'seen = registry[0]\n        registry = [name]', 'registry += [name]',
+                 'seen = [registry[0] for _ in range(1)]', 'def method(self):\n            return registry[0]'):
+        PROGRAMS.append("registry = ['module']\ndef make(name):\n    registry = ['local']\n    class Plugin:\n        %s\n        %s\n"
+                        "    return registry, getattr(Plugin, 'seen', None), Plugin().method() if hasattr(Plugin, 'method') else None\nprint(make('a'), registry)" % (_decl, _use))
 PROGRAMS += list(KNOWN_PROGRAMS)
 PROGRAMS.append("def f():\n    pass\n    'not a docstring'\n    return 1\nclass K:\n    pass\n    'not a class docstring'\nprint(f.__doc__, K.__doc__)")      # repaired in e235f6e
 # fixed in 7a1a7a4 / f054637 / 3bb1e82 / 8cd404d: a regression is an ordinary violation
@@ -280,15 +286,16 @@ def interface_names(tree):
             if isinstance(n, ast.ImportFrom):
                 out['imports'].append(n.module or '')
         if isinstance(n, ast.ClassDef):
-            out['classbody'].append(n.name) if False else None
+            # a name the class body declares global / nonlocal is bound outside the class: it is not an attribute of the class
+            outside = set(nm for s in n.body if isinstance(s, (ast.Global, ast.Nonlocal)) for nm in s.names)
             for s in n.body:
-                if isinstance(s, (ast.FunctionDef, ast.AsyncFunctionDef, ast.ClassDef)):
+                if isinstance(s, (ast.FunctionDef, ast.AsyncFunctionDef, ast.ClassDef)) and s.name not in outside:
                     out['classbody'].append(s.name)
                 if isinstance(s, (ast.Assign, ast.AnnAssign, ast.AugAssign)):
                     targets = s.targets if isinstance(s, ast.Assign) else [s.target]
                     for tt in targets:
                         for t in ast.walk(tt):
-                            if isinstance(t, ast.Name) and isinstance(t.ctx, ast.Store):
+                            if isinstance(t, ast.Name) and isinstance(t.ctx, ast.Store) and t.id not in outside:
                                 out['classbody'].append(t.id)
         if isinstance(n, (ast.FunctionDef, ast.AsyncFunctionDef, ast.Lambda)):
             a = n.args
